@@ -1342,7 +1342,7 @@ def replay(ck, path):
 def main():
     ck = Check("C01", "translation_validation")
     ck.lean_stage(["VelaVerif.Props.C01", "VelaVerif.Props.C01Rewrites", "VelaVerif.Props.C01Rewrites2", "VelaVerif.Props.C01Wide",
-                   "VelaVerif.Props.C01Packing", "VelaVerif.Props.C01Slice", "VelaVerif.Props.C01StridedSlice"])
+                   "VelaVerif.Props.C01Packing", "VelaVerif.Props.C01Slice", "VelaVerif.Props.C01StridedSlice", "VelaVerif.Props.C01Softmax"])
     if ck.replay_arg:
         replay(ck, ck.replay_arg)
     import pipeline
